@@ -507,9 +507,26 @@ package lint
 //@   assigns r.configuration
 //@   ensures r.configuration == cfg
 
+// the JSON listing (C14): one encoder, created on the very writer that was handed in (nothing in
+// between that could rewrite the bytes), and exactly one Encode call per registered lint of each
+// kind - the j-th call of a kind encodes the j-th lint of that kind's listing, through that encoder
+//@ trace extern encoding/json.NewEncoder as NewEnc
+//@ trace extern (*encoding/json.Encoder).Encode as Enc
 //@ func (*registryImpl).WriteJSON [C10 C14]
 //@   requires r != nil && wfcertLookup(&r.certificateLints) && wfocspLookup(&r.ocspResponseLints) && wfcrlLookup(&r.revocationListLints)
 //@   assigns \fresh
+//@   loop 1 invariant [C14] g.nNewEnc == 1 && g.argNewEnc == w && g.nEnc == k && k <= len(r.certificateLints.lints)
+//@   loop 1 invariant [C14] forall(j, 0, k, g.rseqEnc[j+1] == g.retNewEnc && typeIs(g.aseqEnc[j+1], *CertificateLint) &&
+//@                          unbox(g.aseqEnc[j+1], *CertificateLint) == r.certificateLints.lints[j])
+//@   loop 2 invariant [C14] g.nNewEnc == 1 && g.argNewEnc == w && g.nEnc == len(r.certificateLints.lints) + k && k <= len(r.ocspResponseLints.lints)
+//@   loop 2 invariant [C14] forall(j, 0, k, g.rseqEnc[len(r.certificateLints.lints)+j+1] == g.retNewEnc && typeIs(g.aseqEnc[len(r.certificateLints.lints)+j+1], *OcspResponseLint) &&
+//@                          unbox(g.aseqEnc[len(r.certificateLints.lints)+j+1], *OcspResponseLint) == r.ocspResponseLints.lints[j])
+//@   loop 3 invariant [C14] g.nNewEnc == 1 && g.argNewEnc == w && g.nEnc == len(r.certificateLints.lints) + len(r.ocspResponseLints.lints) + k && k <= len(r.revocationListLints.lints)
+//@   loop 3 invariant [C14] forall(j, 0, k, g.rseqEnc[len(r.certificateLints.lints)+len(r.ocspResponseLints.lints)+j+1] == g.retNewEnc &&
+//@                          typeIs(g.aseqEnc[len(r.certificateLints.lints)+len(r.ocspResponseLints.lints)+j+1], *RevocationListLint) &&
+//@                          unbox(g.aseqEnc[len(r.certificateLints.lints)+len(r.ocspResponseLints.lints)+j+1], *RevocationListLint) == r.revocationListLints.lints[j])
+//@   ensures [C14] g.nNewEnc == 1 && g.argNewEnc == w &&
+//@                 g.nEnc == len(r.certificateLints.lints) + len(r.ocspResponseLints.lints) + len(r.revocationListLints.lints)
 
 //@ func (FilterOptions).Empty [C08]
 //@   pure
